@@ -25,6 +25,7 @@ LEVEL = "exploration"
 NEEDS_RUST = True
 WORKERS = 14
 CASE_TIMEOUT = 240
+QUIESCENCE_SCOPE = "process"   # helpers are polling feeders only
 QUIESCENCE_AFTER = 60.0
 REQUIRED_OBS = ["iterator_measurements", "dataset_measurements", "infinite_streams_taken", "rust_measurements"]
 RULE = ("paths {shuffle_buffer, shuffle_buffer_async, round_robin, round_robin_async, LazyPool, dataset-level sync / "
@@ -330,6 +331,36 @@ _STATE: dict = {}
 
 def take(dataset, iface, shuffle, repeat, k, slow, kwargs) -> int:
     from rtmon import readers
+    if iface == "async":
+        # consume inside a real coroutine: between two items the event loop keeps running (a slow consumer
+        # awaits), so any background producer task of the pipeline gets its chance to run ahead
+        loop = asyncio.new_event_loop()
+
+        async def consume() -> int:
+            agen = dataset.as_numpy_iterator_async(split="train", shuffle=shuffle, repeat=repeat, **kwargs)
+            count = 0
+            async for _ in agen:
+                count += 1
+                await asyncio.sleep(0.004 if slow else 0)
+                if count >= k:
+                    break
+            await asyncio.sleep(0.1)
+            _STATE["pending_async"] = agen
+            return count
+
+        taken_async = loop.run_until_complete(consume())
+
+        def close_async():
+            agen = _STATE.pop("pending_async", None)
+            try:
+                if agen is not None:
+                    loop.run_until_complete(agen.aclose())
+                loop.run_until_complete(loop.shutdown_asyncgens())
+            finally:
+                loop.close()
+
+        _STATE["close"] = close_async
+        return taken_async
     iterator, close = readers.open_stream(dataset, iface, "train", shuffle=shuffle, repeat=repeat, **kwargs)
     _STATE["close"] = close
     taken = 0
